@@ -36,7 +36,7 @@ func captureStdout(f func()) string {
 }
 
 // `perft n` / `tperft n` through the command interpreter, output canonicalised: OK|<sorted move:count>|<total>
-func perftViaCommand(fen, cmd string, depth int) string {
+func perftViaCommand(fen, cmd string, depth int, pre ...string) string {
 	return guarded(func() string {
 		var text string
 		crashed := ""
@@ -51,6 +51,14 @@ func perftViaCommand(fen, cmd string, depth int) string {
 				engine.ParseInputLine("position startpos")
 			} else {
 				engine.ParseInputLine("position fen " + fen)
+			}
+			if len(pre) > 0 {
+				// what the commands before the perft print is not part of the answer
+				captureStdout(func() {
+					for _, c := range pre {
+						engine.ParseInputLine(c)
+					}
+				})
 			}
 			engine.ParseInputLine(fmt.Sprintf("%s %d", cmd, depth))
 		})
@@ -119,6 +127,12 @@ func init() {
 			for d := 1; d <= depth; d++ {
 				so.emit(fmt.Sprintf("PERFT\t%s\t%d", fen, d), perftViaCommand(fen, "perft", d))
 				so.emit(fmt.Sprintf("TPERFT\t%s\t%d", fen, d), perftViaCommand(fen, "tperft", d))
+			}
+			// the same counts after query commands that must not disturb the position (same request, same expected answer)
+			if i%2 == 0 {
+				d := 1 + i/2%2
+				so.emit(fmt.Sprintf("PERFT\t%s\t%d", fen, d), perftViaCommand(fen, "perft", d, "eval", "isready"))
+				so.emit(fmt.Sprintf("TPERFT\t%s\t%d", fen, d), perftViaCommand(fen, "tperft", d, "eval", "tperft 1"))
 			}
 		}
 		fmt.Fprintf(os.Stderr, "STATS perft total=%d\n", so.n)
